@@ -14,7 +14,7 @@ from collections import deque
 
 import numpy as np
 
-from .. import alpha, core, gutil, lib, ref
+from .. import alpha, core, gutil, lib, numapi, ref
 from ..gutil import close, key_of, maxabs, rep_tag
 
 LEVEL = "model_checking"
@@ -123,6 +123,14 @@ def explore_config(case):
         elems = alpha.reduced(elems, 80 if tier == "thorough" else 40)
     for e in elems:
         judge(res, name, B, L, AL, e["p"], "designed:" + e["tag"], case)
+    # ---- direct numeric use of the API, object reuse, argument mutation (see numapi) -------------------
+    selg = []
+    for e in elems:
+        sl = gutil.slots_of(L, e["p"])
+        angs = [ref.rot_angle(gutil.ref_R_of_slot(s_[1], a_)) for s_, a_ in zip(L, sl) if s_[0] == "rot"]
+        if all(t <= math.pi - 0.05 for t in angs) and gutil.elem_excluded(L, e["p"]) is None:
+            selg.append(e["p"])
+    numapi.check_group(res, B, alpha.reduced(selg, 24 if not is_dp else 10), [], case, "config", ("log",), tol=1e-9)
     # ---- log(exp x) = x ---------------------------------------------------------------------------
     xs = alpha.elements(AL, seed, small=is_dp)
     if is_dp:
